@@ -166,6 +166,31 @@ func buildGraph(rc resolve.Client, root resolve.VersionKey, s *state) (*resolve.
 		rootPackage: g.AddNode(root),
 	}
 
+	// A version is connected when one of the versions that require it is
+	// connected. Settle that first by iterating to a fixed point: the
+	// depth-first search below gives up on a version it meets again on a
+	// cycle, and would remember it as not connected even if another of
+	// its parents leads to the root.
+	for changed := true; changed; {
+		changed = false
+		s.mapping.Iterate(func(p resolve.PackageKey, v resolve.VersionKey) {
+			if connected[v] {
+				return
+			}
+			crit, ok := s.criteria.Get(p)
+			if !ok {
+				return
+			}
+			for _, parent := range crit.informationParents {
+				if connected[parent] {
+					connected[v] = true
+					changed = true
+					return
+				}
+			}
+		})
+	}
+
 	// Add all the nodes that can reach the root.
 	s.mapping.Iterate(func(p resolve.PackageKey, v resolve.VersionKey) {
 		if !hasRouteToRoot(rc, v, connected, s) {
